@@ -260,6 +260,11 @@ spif_mbuff_init_from_fd(spif_mbuff_t self, int fd)
     file_pos = lseek(fd, (off_t) 0, SEEK_CUR);
     file_size = (spif_memidx_t) lseek(fd, (off_t) 0, SEEK_END);
     lseek(fd, file_pos, SEEK_SET);
+    if (file_size >= 0) {
+        /* Only what lies ahead of the current position can be read. */
+        file_size -= file_pos;
+        LOWER_BOUND(file_size, 0);
+    }
     if (file_size < 0) {
         spif_byteptr_t p;
         ssize_t cnt = 0;
@@ -290,7 +295,7 @@ spif_mbuff_init_from_fd(spif_mbuff_t self, int fd)
         self->len = self->size = file_size;
         self->buff = (spif_byteptr_t) MALLOC(self->size);
 
-        if (read(fd, p, file_size) < 1) {
+        if (read(fd, self->buff, file_size) < 1) {
             FREE(self->buff);
             return FALSE;
         }
